@@ -40,6 +40,11 @@ pub struct Plan {
     pub base: Script,
     pub style: Style,
     pub phase: Phase,
+    /// Style::Capsule only - what follows the close capsule inside the same DATA frame:
+    /// 0 nothing, 1 a small reserved-type capsule, 2 a 1100-byte reserved-type capsule,
+    /// 3 a second close capsule with another code and reason (the first one counts)
+    #[serde(default)]
+    pub trailing: u8,
 }
 
 fn utf8_reason(rng: &mut Rng, len: usize) -> Vec<u8> {
@@ -78,7 +83,8 @@ pub fn gen_plan(seed: u64, index: usize, _tier: Tier) -> Plan {
         3 => Style::CleanFin,
         4 | 5 => {
             let code = if rng.coin() { *rng.pick(&VARINT_CODES) } else { rng.range(0, rc::VARINT_MAX) };
-            let len = *rng.pick(&[0usize, 1, 10, 100, 200]);
+            // QUIC reason phrases are not limited to the capsule's 1024 bytes
+            let len = *rng.pick(&[0usize, 1, 10, 100, 200, 1023, 1024, 1025, 1060]);
             Style::QuicClose { code, reason_hex: hex(&rng.bytes(len)) }
         }
         6 => Style::ResetStream { code: *rng.pick(&VARINT_CODES) },
@@ -94,7 +100,8 @@ pub fn gen_plan(seed: u64, index: usize, _tier: Tier) -> Plan {
         2 => Phase::AfterCancelledAccepts,
         _ => Phase::AfterIgnorableElements,
     };
-    Plan { base, style, phase }
+    let trailing = if matches!(style, Style::Capsule { .. }) && rng.chance_pm(350) { rng.range(1, 3) as u8 } else { 0 };
+    Plan { base, style, phase, trailing }
 }
 
 pub fn compile(p: &Plan) -> Script {
@@ -131,7 +138,16 @@ pub fn compile(p: &Plan) -> Script {
         }
     }
     match &p.style {
-        Style::Capsule { code, reason_hex } => acts.push(close_capsule_act(*code, &harness::unhex(reason_hex))),
+        Style::Capsule { code, reason_hex } if p.trailing == 0 => acts.push(close_capsule_act(*code, &harness::unhex(reason_hex))),
+        Style::Capsule { code, reason_hex } => {
+            let mut payload = rc::close_capsule(*code, &harness::unhex(reason_hex));
+            match p.trailing {
+                1 => payload.extend_from_slice(&rc::capsule(rc::grease(3), b"abc")),
+                2 => payload.extend_from_slice(&rc::capsule(rc::grease(5), &vec![b'x'; 1100])),
+                _ => payload.extend_from_slice(&rc::close_capsule(code.wrapping_add(1), b"second capsule")),
+            }
+            acts.push(Act::Write { slot: SLOT_CONNECT, hex: hex(&rc::frame(rc::FRAME_DATA, &payload)) });
+        }
         Style::CleanFin => acts.push(Act::Fin { slot: SLOT_CONNECT }),
         Style::QuicClose { code, reason_hex } => acts.push(Act::CloseConn { code: *code, reason_hex: reason_hex.clone() }),
         Style::ResetStream { code } => acts.push(Act::Reset { slot: SLOT_CONNECT, code: *code }),
@@ -414,7 +430,7 @@ impl TypedScenario for C04E2E {
         let mut rng = Rng::new(seed, "c04-e2e");
         let mut net = NetCfg::clean(rng.next_u64());
         net.lat_min_us = *rng.pick(&[200u64, 1_000, 10_000]);
-        let len = *rng.pick(&[0usize, 1, 10, 100, 500]);
+        let len = *rng.pick(&[0usize, 1, 10, 100, 500, 1024, 1025, 1060]);
         E2EPlan {
             seed,
             rt: RtKnobs::from_rng(&mut rng),
@@ -435,7 +451,7 @@ pub fn def() -> PropertyDef {
     PropertyDef {
         id: "C04",
         scenarios: vec![Box::new(Typed(C04Raw)), Box::new(Typed(C04E2E))],
-        rule: "raw-termination: after a valid session set-up the scripted raw peer (both roles, alternating) ends the session by: close capsule (32-bit code boundaries and random; valid UTF-8 reasons of 0..1024 bytes incl. multi-byte characters ending exactly at the limit), clean FIN of the request stream, QUIC application close (62-bit code boundaries and random; arbitrary reason bytes), reset of the request stream, FIN inside a frame, malformed capsules (payload shorter than 4 bytes, reason of 1025+ bytes, invalid UTF-8), and an incomplete capsule followed by a complete one; at a generated point of the session's life (idle, with open uni/bidi streams, after the pending accepts were cancelled and reissued, after ignorable GREASE/unknown elements). Oracle: the three pending calls and three calls issued afterwards all return ApplicationClosed with exactly the peer's code and reason bytes ((0,\"\") for the clean FIN); abrupt / malformed endings are reported as one and the same LocalH3Error on every call, never as ApplicationClosed; the code on the wire is H3_NO_ERROR for clean endings and the local error's code otherwise; streams opened before the ending were handed over. e2e-connection-close: a real peer calls Connection::close(code, reason); the other side's pending calls and closed() report exactly that code and reason. Every run is non-trivial; distinct = distinct plan hashes.",
+        rule: "raw-termination: after a valid session set-up the scripted raw peer (both roles, alternating) ends the session by: close capsule (32-bit code boundaries and random; valid UTF-8 reasons of 0..1024 bytes incl. multi-byte characters ending exactly at the limit; in a third of the runs the same DATA frame goes on with a reserved-type capsule of 3 or 1100 bytes or with a second close capsule - the first capsule's values count), clean FIN of the request stream, QUIC application close (62-bit code boundaries and random; arbitrary reason bytes), reset of the request stream, FIN inside a frame, malformed capsules (payload shorter than 4 bytes, reason of 1025+ bytes, invalid UTF-8), and an incomplete capsule followed by a complete one; at a generated point of the session's life (idle, with open uni/bidi streams, after the pending accepts were cancelled and reissued, after ignorable GREASE/unknown elements). Oracle: the three pending calls and three calls issued afterwards all return ApplicationClosed with exactly the peer's code and reason bytes ((0,\"\") for the clean FIN); abrupt / malformed endings are reported as one and the same LocalH3Error on every call, never as ApplicationClosed; the code on the wire is H3_NO_ERROR for clean endings and the local error's code otherwise; streams opened before the ending were handed over. e2e-connection-close: a real peer calls Connection::close(code, reason); the other side's pending calls and closed() report exactly that code and reason. Every run is non-trivial; distinct = distinct plan hashes.",
         assumptions: vec![
             "the close capsule is written in one piece here (segmentation is C05's subject)",
             "raw peer + reference codec are harness code; current-thread runtime; fault-free network",
